@@ -46,8 +46,21 @@ def check_session(scenario, schedule, stats=None, schedule2=None, real_sockets=F
             raise Violation('the log depends on thread timing: two schedules of the same session wrote different files',
                             SE.case_of(scenario, schedule, r, {'schedule2': schedule2}),
                             {'first': r.output_text[:300], 'second': r2.output_text[:300]})
+    turned = None
+    if schedule2 is not None and SE.h64(scenario) % 3 == 0:
+        # the same session turned one seat round (every hand, the dealer and with them the declarer move to the next seat; the
+        # vulnerability stays), played in the same process right afterwards: it is a session like any other and must be logged
+        # as the model says - in particular with the score of the OTHER side's vulnerability
+        turned = dict(scenario, intruders=[], boards=[dict(b, owner=[(o + 1) % 4 for o in b['owner']], dealer=(b['dealer'] + 1) % 4)
+                                                       for b in scenario['boards']])
+        r3 = SE.run_case(turned, schedule2)
+        probs = SE.completion_problems(turned, r3) or SE.log_problems(turned, r3)
+        if probs:
+            raise Violation('the same session turned one seat round: ' + probs[0][0], SE.case_of(scenario, schedule, r3, {'schedule2': schedule2, 'turned': True}), probs[0][1])
     if stats is not None:
-        stats.evaluated(2 if schedule2 is not None else 1)
+        stats.evaluated((2 if schedule2 is not None else 1) + (1 if turned else 0))
+        if turned:
+            stats.cls('sessions also played turned one seat round (same vulnerability, other side declares)')
         f = SE.scenario_features(scenario, schedule)
         for x in f:
             stats.cls(x)
